@@ -31,6 +31,7 @@ pub fn run_check(prop: &str, tier: Tier, seed: u64) -> i32 {
         "C09" => c09(tier, seed),
         "C07" => c07(tier, seed),
         "C08" => c08(tier, seed),
+        "C04" => c04(tier, seed),
         other => harness_error(&format!("no check registered for {other}")),
     }
 }
@@ -46,6 +47,7 @@ pub fn replay(doc: &J) -> i32 {
         "C18" => crate::driver::replay::<crate::props_mclmc::MclmcScenario>(doc),
         "C09" => crate::driver::replay::<crate::props_sched_adapt::WindowScenario>(doc),
         "C07" | "C08" => crate::driver::replay::<crate::props_adapt::AdaptScenario>(doc),
+        "C04" => crate::driver::replay::<crate::props_posterior::PosteriorScenario>(doc),
         other => harness_error(&format!("replay: unknown property {other}")),
     }
 }
@@ -733,5 +735,47 @@ fn c08(tier: Tier, seed: u64) -> i32 {
     ctx.finish("exploration", components_engine_a(), vec![
         "windows containing NaN/inf draws or gradients are not reachable through a chain (such states are never accepted) and are not fed to the estimators directly (that would be input generation, DESIGN.md §5 C08)".into(),
         "low-rank exactness on covariances that fit the rank is not asserted (only finiteness/positivity), see DESIGN.md".into(),
+    ], json!({}))
+}
+
+fn c04(tier: Tier, seed: u64) -> i32 {
+    use crate::props_posterior::PosteriorScenario;
+    let mut ctx = Ctx::new("C04", tier, seed);
+    let n = ctx.n(24, 600);
+    let quick = tier == Tier::Quick;
+    ctx.run_batch("cells", "cell = NUTS preset (Diag / LowRank; Flow with the stub flow) x kinetic energy (Euclidean / ExactNormal) x step-size method (dual averaging / Adam), otherwise DEFAULT settings, x target with known moments (isotropic, badly scaled up to 1e6, correlated Gaussians; Student-t with integer df; skewed log-gamma), dimension 2..20 (thorough: ..100); 32 independently seeded chains per cell, default warmup, 4000 post-warmup draws each; per coordinate the mean, variance and 5/25/50/75/95% quantile coverage averaged over chains are compared with the truth (exact for Gaussians, 2e6 i.i.d. reference draws otherwise) by a t statistic with the BETWEEN-CHAIN standard error at a two-sided level of 1e-7; no post-warmup divergence on Gaussians; the trajectory-start momentum seen at the SimMath seam: KS distance to N(0,1), lag-1 autocorrelation, correlation with the previous draw", n, |rs, i| {
+        let mut r = Prng::sub(rs, "cell");
+        let kind = match i % 6 { 0 | 1 | 2 => crate::swarm::PresetKind::DiagNuts, 3 | 4 => crate::swarm::PresetKind::LowRankNuts, _ => crate::swarm::PresetKind::FlowNuts };
+        let o = SwarmOpts { randomise_knobs: false, ..Default::default() };
+        let d = if quick { r.usize_in(2, 12) } else { *r.pick(&[2usize, 5, 10, 20, 50, 100]) };
+        let draws = if quick { 4000 } else { 6000 };
+        // default settings; only the documented knobs of the property's quantifier vary
+        let defaults_tune = match kind { crate::swarm::PresetKind::DiagNuts => 400, crate::swarm::PresetKind::LowRankNuts => 800, _ => 600 };
+        let mut preset = crate::swarm::gen_preset(&mut r, kind, defaults_tune, draws, &o);
+        let exact = (i / 6) % 2 == 1;
+        let adam = r.chance(0.25);
+        macro_rules! setk { ($s:expr) => {{
+            if exact { $s.trajectory_kind = nuts_rs::KineticEnergyKind::ExactNormal; }
+            if adam { $s.adapt_options.step_size_settings.adapt_options.method = nuts_rs::StepSizeAdaptMethod::Adam; }
+        }}; }
+        match &mut preset {
+            crate::chain::Preset::DiagNuts(s) => setk!(s),
+            crate::chain::Preset::LowRankNuts(s) => setk!(s),
+            crate::chain::Preset::FlowNuts(s) => setk!(s),
+            _ => {}
+        }
+        let target = match (i / 2) % 6 {
+            0 => crate::density::std_normal(d),
+            1 => crate::density::Target::DiagNormal { mu: (0..d).map(|_| r.uniform(-3.0, 3.0)).collect(), sigma: (0..d).map(|_| r.log_uniform(1e-3, 1e3)).collect() },
+            2 => { let eig: Vec<f64> = (0..d).map(|_| r.log_uniform(0.05, 20.0)).collect(); let mu = (0..d).map(|_| r.uniform(-2.0, 2.0)).collect(); crate::density::dense_normal(&mut r, mu, &eig).0 }
+            3 => crate::density::Target::StudentT { nu: *r.pick(&[5.0, 8.0, 12.0]), mu: (0..d).map(|_| r.uniform(-1.0, 1.0)).collect(), scale: (0..d).map(|_| r.log_uniform(0.3, 3.0)).collect() },
+            4 => crate::density::Target::LogGamma { a: (0..d).map(|_| r.range(2, 6) as f64).collect() },
+            _ => crate::density::Target::StudentT { nu: 5.0, mu: vec![0.0; d], scale: vec![1.0; d] },
+        };
+        PosteriorScenario { preset, target, n_chains: 32, seed: r.next_u64(), n_truth: 2_000_000 }
+    });
+    ctx.finish("exploration", components_engine_a_math(), vec![
+        "no schedule and no fault in this property: the family contributes seeded repeatability and the momentum seam (weak fit, DESIGN.md §5 C04)".into(),
+        "thresholds at a two-sided level of 1e-7 per statistic with between-chain standard errors (valid whatever the autocorrelation); a behaviour-preserving change that reshuffles the random stream cannot plausibly trip it; small biases below ~1 standard error of 32 chains x 4000 draws are not detectable".into(),
     ], json!({}))
 }
